@@ -130,9 +130,14 @@ int h_getentropy(void *buf, size_t n) {
     simrt::on_access((uintptr_t) buf, n, true, (uintptr_t) __builtin_return_address(0));
     return 0;
 }
+// clock knob: the simulated clock stands still, so all threads (and all calls) read the same microsecond -- what a
+// coarse clock or threads released from one barrier see.  Time is only a nonce for the library, never a source of
+// uniqueness: every thread's stream is keyed from its own kernel entropy, so outputs must still never coincide.
+bool g_frozen_clock = false; uint64_t g_frozen_clock_reads = 0;
 int h_gettimeofday(struct timeval *tv, void *) {
     simrt::yield_point(simrt::Y_SYSCALL, 12);
     int s = ENV.slot();
+    if (g_frozen_clock) { tv->tv_sec = 1700000000; tv->tv_usec = 424242; g_frozen_clock_reads++; return 0; } // every thread reads the same instant
     tv->tv_sec = 1700000000 + s; tv->tv_usec = (suseconds_t) (++ENV.tod[s]);
     return 0;
 }
@@ -839,6 +844,7 @@ struct PlanT {
     unsigned prior_init_calls = 0; // the main thread has called sodium_init() this many times before the threads race through it (0: the threads' calls are the first)
     unsigned entropy_dies_after = 0; // 0 never; k: each thread's k-th and later getrandom()/getentropy() calls outside sodium_init() fail (bit 8: EPERM instead of ENOSYS)
     bool no_getrandom = false;  // kernel without getrandom()/getentropy(): the random sources read a simulated /dev/urandom
+    bool frozen_clock = false;  // the simulated clock stands still: all threads read the same instant
     bool sysconf_fails = false; // environment fault: sysconf(_SC_PAGESIZE) fails inside sodium_init (the library falls back to its default)
     std::vector<std::pair<uint64_t, int>> sched; // strategy "explicit": deviations (decision index, thread) from run-to-completion order
     std::vector<Op> ops;
@@ -922,7 +928,7 @@ Outcome run_plan(const PlanT &p, int strategy, const std::vector<int> &seq_order
     g_thread_ops.assign((size_t) p.nthreads, {});
     for (auto &o : p.ops) g_thread_ops[(size_t) (o.thread % p.nthreads)].push_back(o.op);
     ENV.reset(mix64(p.content_seed, 0xe27));
-    g_sysconf_fails = p.sysconf_fails; g_sysconf_failed = 0;
+    g_sysconf_fails = p.sysconf_fails; g_sysconf_failed = 0; g_frozen_clock = p.frozen_clock; g_frozen_clock_reads = 0;
     g_rl_memlock.rlim_cur = 65536; g_rl_memlock.rlim_max = RLIM_INFINITY;
     g_env_fault_pct = p.env_fault_pct; memset(g_env_calls, 0, sizeof g_env_calls); g_eintr_fired = g_mlock_refused = 0;
     g_entropy_dies_after = p.entropy_dies_after & 0xff; g_entropy_dies_errno = (p.entropy_dies_after & 0x100) ? EPERM : ENOSYS;
@@ -1034,6 +1040,7 @@ struct C19 {
         p.entropy_dies_after = (!p.no_getrandom && p.rng != R_SCRIPTED && k.chance(1, 8)) ? (unsigned) k.range(1, 6) | (k.chance(1, 2) ? 0x100u : 0u) : 0;
         p.shared_arena = k.chance(1, 2);
         p.env_fault_pct = k.chance(1, 2) ? 0 : (unsigned) k.range(5, 40);
+        p.frozen_clock = k.chance(1, 2);
         size_t per_thread_max = p.nthreads > 8 ? 3 : p.nthreads > 4 ? 6 : (thorough ? 12 : 8);
         for (int t = 0; t < p.nthreads; t++) {
             size_t n = (size_t) o.below(per_thread_max + 1);
@@ -1060,7 +1067,7 @@ struct C19 {
         j["knobs"] = p.pk; j["content_seed"] = p.content_seed; j["sched_seed"] = p.sched_seed; j["threads"] = p.nthreads;
         j["strategy"] = simrt::strategy_name[p.strategy]; j["pct_depth"] = p.pct_depth; j["rng"] = rng_name[p.rng]; j["preinit"] = p.preinit; j["inline_main"] = p.inline_main; j["sysconf_fails"] = p.sysconf_fails; j["env_fault_pct"] = p.env_fault_pct; j["shared_arena"] = p.shared_arena;
         j["kernel"] = p.no_getrandom ? "no_getrandom_dev_urandom" : "getrandom";
-        j["entropy_dies_after"] = p.entropy_dies_after; j["prior_init_calls"] = p.prior_init_calls;
+        j["entropy_dies_after"] = p.entropy_dies_after; j["prior_init_calls"] = p.prior_init_calls; j["frozen_clock"] = p.frozen_clock;
         if (p.strategy == simrt::S_TRACE) {
             Json sc = Json::array();
             for (auto &d : p.sched) { Json e = Json::array(); e.push(d.first); e.push(d.second); sc.push(e); }
@@ -1081,7 +1088,7 @@ struct C19 {
         for (int i = 0; i < 3; i++) if (j.at("rng").str() == rng_name[i]) p.rng = i;
         p.preinit = j.at("preinit").boolean(); p.inline_main = j.at("inline_main").boolean(); p.sysconf_fails = j.at("sysconf_fails").boolean(); p.env_fault_pct = (unsigned) j.at("env_fault_pct").u64(); p.shared_arena = j.at("shared_arena").boolean();
         p.no_getrandom = j.at("kernel").str() == "no_getrandom_dev_urandom";
-        p.entropy_dies_after = (unsigned) j.at("entropy_dies_after").u64(); p.prior_init_calls = (unsigned) j.at("prior_init_calls").u64();
+        p.entropy_dies_after = (unsigned) j.at("entropy_dies_after").u64(); p.prior_init_calls = (unsigned) j.at("prior_init_calls").u64(); p.frozen_clock = j.at("frozen_clock").boolean();
         for (auto &d : j.at("schedule_deviations").a) if (d.a.size() == 2) p.sched.push_back({d.a[0].u64(), (int) d.a[1].i64()});
         for (auto &q : j.at("ops").a) {
             Op o; o.thread = (int) q.at("t").i64();
@@ -1147,6 +1154,7 @@ struct C19 {
         res.count(std::string("knob.inline_main=") + (p.inline_main ? "yes" : "no"));
         res.count(std::string("knob.shared_arena=") + (p.shared_arena ? "yes" : "no"));
         if (g_sysconf_failed) res.count("fault.sysconf_pagesize_failed", g_sysconf_failed);
+        if (g_frozen_clock_reads) res.count("fault.clock_frozen_reads", g_frozen_clock_reads);
         if (g_eintr_fired) res.count("fault.getrandom_eintr_eagain", g_eintr_fired);
         res.count(std::string("knob.kernel=") + (p.no_getrandom ? "no_getrandom" : "getrandom"));
         if (g_dev_reads) res.count("fault.getrandom_enosys_device_reads", g_dev_reads);
@@ -1318,6 +1326,7 @@ struct C19 {
         if (p.rng != R_DEFAULT) { Plan c = p; c.rng = R_DEFAULT; out.push_back(c); }
         if (p.inline_main) { Plan c = p; c.inline_main = false; out.push_back(c); }
         if (p.sysconf_fails) { Plan c = p; c.sysconf_fails = false; out.push_back(c); }
+        if (p.frozen_clock) { Plan c = p; c.frozen_clock = false; out.push_back(c); }
         if (p.no_getrandom) { Plan c = p; c.no_getrandom = false; out.push_back(c); }
         if (p.entropy_dies_after) { Plan c = p; c.entropy_dies_after = 0; out.push_back(c); }
         if (p.prior_init_calls > 1) { Plan c = p; c.prior_init_calls = 1; out.push_back(c); }
